@@ -63,7 +63,7 @@ def var_record(v, kind, with_perm=True):
     if v.dimension:
         d["dimension"] = v.dimension.replace(" ", "").lower()
     if v.intent:
-        d["intent"] = v.intent.replace(" ", "").lower()
+        d["intent"] = v.intent.lower()  # FORD canonicalises `in out` to `inout` on every path: compared as stored
     if v.initial is not None:
         d["initial"] = norm_expr(str(v.initial))
         d["points"] = bool(v.points)
